@@ -531,6 +531,20 @@ impl Engine {
             (r.seen_sq_tail, r.sq_pending() >= r.sq_entries)
         });
         let must_resolve = self.cq_drained() && self.must_resolve(i) == Some(true);
+        // C09: a10 has been given the final completion of the last attempt, it
+        // says "interrupted", nothing of this operation is queued and the
+        // submission queue has room: this poll has to issue it again.
+        let restart_due = self.ring_alive
+            && !full_before
+            && !self.tasks[i].kind.is_iter()
+            && !ops::is_composite(self.tasks[i].kind)
+            && self.tasks[i].kind != Kind::ReceiveSignals
+            && self.cq_drained()
+            && !self.unconsumed(id)
+            && Self::recs(id).last().is_some_and(|last| {
+                let res = if last.zc { last.cqes.first() } else { last.cqes.last() }.map_or(0, |c| c.0);
+                last.done && is_interrupt(res)
+            });
         let old = kernel::set_cur(id, During::Poll);
         let mut task = self.tasks[i].task.take().unwrap();
         let res = task.poll(&mut cx, &mut produced);
@@ -588,6 +602,15 @@ impl Engine {
                         .any(|p| p.by_op == id && p.during == During::Poll)
                 }) || Self::recs(id).last().is_some_and(|r| !r.done);
                 t.blocked_on_sq = !live;
+                if t.blocked_on_sq && restart_due && !submitted {
+                    violation(
+                        "restart.not-reissued",
+                        format!(
+                            "{} (op#{id}): its last attempt ended interrupted, the completion has been processed and the submission queue has room, yet this poll returned Pending without issuing it again",
+                            t.name
+                        ),
+                    );
+                }
                 if t.blocked_on_sq {
                     stats::inc(C::probe_sq_full_at_poll);
                     stats::inc(C::fault_sq_full);
@@ -656,7 +679,7 @@ impl Engine {
             if t.kind.is_iter() {
                 stats::inc(C::probe_restart_multishot);
             }
-            if a.sqe != b.sqe {
+            if a.sqe != b.sqe && !kernel::with(|k| k.late_builder_ops.contains(&t.id)) {
                 let diff: Vec<usize> = (0..64).filter(|x| a.sqe.0[*x] != b.sqe.0[*x]).collect();
                 violation(
                     "restart.sqe-differs",
@@ -1278,6 +1301,16 @@ impl Engine {
                 .map_err(|_| ());
                 (g, w)
             }
+            4 if tape::chance(site::EDIT, 1, 8) => {
+                // A slice whose length only fits in more than 32 bits (2^32 + k,
+                // k around the spare capacity): never fits, nothing is copied.
+                let extra = (1usize << 32) + tape::choose(site::EDIT, cap as u32 + 3) as usize;
+                what = format!("extend_from_slice(2^32 + {} bytes)", extra - (1usize << 32));
+                stats::inc(C::probe_readbuf_wide_slice);
+                let data = wide_zeros(extra);
+                let g = alloc::a10(|| hb.buf.extend_from_slice(data));
+                (g, Err(()))
+            }
             4 => {
                 let extra = tape::choose(site::EDIT, cap as u32 + 3) as usize;
                 let data: Vec<u8> = (0..extra).map(|x| 0x40 + x as u8).collect();
@@ -1306,6 +1339,18 @@ impl Engine {
                 });
                 hb.model.extend((0..n).map(|k| 0x70 + k as u8));
                 (Ok(()), Ok(()))
+            }
+            8 if tape::chance(site::EDIT, 1, 8) => {
+                // The same with more than 2^32 bytes on offer: the spare capacity
+                // is filled (with zeros), not a byte more.
+                let extra = (1usize << 32) + tape::choose(site::EDIT, cap as u32 + 3) as usize;
+                let fits = cap - len;
+                what = format!("BufMut::extend_from_slice(2^32 + {} bytes)", extra - (1usize << 32));
+                stats::inc(C::probe_readbuf_wide_slice);
+                let data = wide_zeros(extra);
+                let n = alloc::a10(|| a10::io::BufMut::extend_from_slice(&mut hb.buf, data));
+                hb.model.extend(std::iter::repeat_n(0u8, fits));
+                if n == fits { (Ok(()), Ok(())) } else { (Err(()), Ok(())) }
             }
             8 => {
                 // The `BufMut` trait's short-write append: goes through
@@ -2184,6 +2229,30 @@ pub fn final_checks(r: usize, expect_clean_fds: bool, ring_first: bool) {
 
 /// Leak check: blocks allocated by a10 (or handed to it) during the run that
 /// are still live.
+/// `len` (more than 2^32) bytes of zeros: a read-only, lazily backed mapping
+/// made once per process; reading it costs the shared zero page only.
+fn wide_zeros(len: usize) -> &'static [u8] {
+    const SIZE: usize = (1 << 32) + (1 << 20);
+    static ADDR: std::sync::OnceLock<usize> = std::sync::OnceLock::new();
+    let addr = *ADDR.get_or_init(|| {
+        let p = unsafe {
+            libc::mmap(
+                std::ptr::null_mut(),
+                SIZE,
+                libc::PROT_READ,
+                libc::MAP_PRIVATE | libc::MAP_ANONYMOUS | libc::MAP_NORESERVE,
+                -1,
+                0,
+            )
+        };
+        assert!(p != libc::MAP_FAILED, "mapping 4 GiB of zeros failed");
+        p as usize
+    });
+    assert!(len <= SIZE);
+    // SAFETY: mapped above, never unmapped, read-only.
+    unsafe { std::slice::from_raw_parts(addr as *const u8, len) }
+}
+
 pub fn check_leaks() {
     let (created, twice, never) = ops::tracked_summary();
     if twice > 0 {
